@@ -56,6 +56,9 @@ func TestRaceLane(t *testing.T) {
 	interp.VerifHook = perturb
 	p := props.Lookup("C06")
 	ran := 0
+	if job.Only < 0 {
+		coldStartBurst()
+	}
 	for idx := job.Shard; idx < job.N; idx += job.NSh {
 		if job.Only >= 0 && idx != job.Only {
 			continue
@@ -104,6 +107,27 @@ func runCase(c *props.Case) (result string) {
 			x, _ := env.Get("x")
 			y, _ := env.Get("y")
 			result = fmt.Sprintf("%d %v x=%q y=%q", n, err, x.Value, y.Value)
+		case "eval2":
+			var res [2]string
+			var wg sync.WaitGroup
+			for i, e := range []string{c.Src, c.Src2} {
+				wg.Add(1)
+				go func(i int, e string) {
+					defer wg.Done()
+					defer func() {
+						if x := recover(); x != nil {
+							res[i] = fmt.Sprint("panic: ", x)
+						}
+					}()
+					res[i] = props.SoloEval(c, e)
+				}(i, e)
+			}
+			wg.Wait()
+			result = res[0] + "\n=====\n" + res[1]
+			if solo := props.SoloEval(c, c.Src) + "\n=====\n" + props.SoloEval(c, c.Src2); solo != result {
+				result = "CONCURRENT-DIFFERS-FROM-SOLO " + result
+				fmt.Fprintf(os.Stderr, "DIFF -1 concurrent evaluators interfere: %q\n", clip(result))
+			}
 		case "parse2":
 			// two independent callers on two goroutines; each must get what it gets alone
 			var res [2]string
@@ -174,4 +198,39 @@ func runCase(c *props.Case) (result string) {
 		os.Exit(3)
 	}
 	return result
+}
+
+// coldStartBurst: the very first thing a fresh process does is to let eight independent callers use
+// the library at the same time on inputs that touch many constructs, so that anything initialised
+// lazily on first use (package-level tables, caches) is initialised concurrently.
+func coldStartBurst() {
+	fmt.Fprintf(os.Stderr, "CASE -2\n")
+	progs := []string{
+		"f() { cat <<E | while read x; do case $x in a) b;; esac; done; }\nbody $y $(z) `w`\nE\n",
+		"g() ( if a; then b; elif c; then d; else e; fi )\n",
+		"for i in a b; do until x; do y; done; done 2>&1 >>f <<-X\n\tq\n\tX\n",
+		"break() { a; }\n", "x=1 y=$((x+08)) cmd \"${z:-$(a)}\" 'q' \\n # c\n", "h () { (( n++ )); } && ! k | l &\n",
+	}
+	exprs := []string{"(x = 1) + y + 1", "z + 2", "1/0", "x++ + ++x", "y ? 08 : 1"}
+	var wg sync.WaitGroup
+	start := make(chan struct{})
+	for g := 0; g < 8; g++ {
+		wg.Add(1)
+		go func(g int) {
+			defer wg.Done()
+			defer func() { recover() }()
+			<-start
+			for i := range progs {
+				parser.ParseCommands(nil, "burst", progs[(i+g)%len(progs)])
+			}
+			env := interp.NewExecEnv("sim")
+			env.Set("y", []string{"abc", "2"}[g%2])
+			env.Set("z", "zz")
+			for i := range exprs {
+				env.Eval(exprs[(i+g)%len(exprs)])
+			}
+		}(g)
+	}
+	close(start)
+	wg.Wait()
 }
